@@ -20,6 +20,9 @@ for p in props:
         na.append({"property_id": pid, "reason": PENDING["reasons"].get(pid, "no machine-checked theorem discharged for this property yet; not claimed (see DESIGN.md section 6)")})
         continue
     mod = importlib.import_module("props." + pid)
+    if getattr(mod, "CLAIMED", True) is False:
+        na.append({"property_id": pid, "reason": getattr(mod, "NOT_CLAIMED_REASON", "the minimal theorem for this property (DESIGN.md section 6) is not discharged yet; its search driver exists but is not claimed")})
+        continue
     m = mod.META
     checks.append({
         "property_id": pid,
